@@ -391,6 +391,13 @@ def r2(ctx):
         m = re.fullmatch(r'"\[:(\^?)([a-z]+):\]"', r.pat)
         if not m: continue
         lits.append((r, bool(m.group(1)), m.group(2)))
+    have = {(neg, name) for _, neg, name in lits}
+    for name in sorted(lex.POSIX):
+        for neg in (False, True):
+            if (neg, name) not in have:
+                if not (neg and name in ('lower', 'upper')): rep.obl.setdefault('C01.R2', [0, 0])[0] += 1      # stands for both the case-sensitive and the caseless obligation
+                rep.fail('C01.R2', 'C01.R2:scan.l:[:%s%s:]:missing' % ('^' if neg else '', name), 'scan.l',
+                         'scan.l has no rule for the class expression [:%s%s:]; it falls through to the "bad character class expression" rule' % ('^' if neg else '', name))
     lhs = set()
     for r, neg, name in lits:
         lit = r.pat.strip('"')
@@ -426,6 +433,7 @@ def r2(ctx):
                 miss = sorted(want - got); extra = sorted(got - want)
                 def show(cs): return ','.join(repr(chr(c)) if 32 < c < 127 else '\\x%02x' % c for c in cs[:6]) + ('...' if len(cs) > 6 else '')
                 w = fn.bmap[label].ins[0] if label else G.sw
+                if key in rep.vkeys: rep.obl.setdefault('C01.R2', [0, 0])[0] += 1      # same defect seen under the other case mode: one report
                 rep.fail('C01.R2', key, where(w),
                          '%s returns %s, whose production (reduction %d) adds a different set: %d missing (%s), %d extra (%s)' % (
                              tag, tok, rule, len(miss), show(miss), len(extra), show(extra)),
@@ -688,7 +696,7 @@ def run(ctx):
     rep.setcount('flex_translation_units', len(prog.modules))
     rep.setcount('flex_functions', len(all_fns(prog)))
     rep.floor('C01.R1', 9, 'member loads in ccl_contains, ccladd, ccl_set_union(2), symfollowset(2), sympartition(2), ccl2ecl + 5 pointer hand-offs')
-    rep.floor('C01.R2', 44, '24 class literals, each under case-sensitive and case-insensitive matching (negated lower/upper only case-sensitive)')
+    rep.floor('C01.R2', 46, '24 class literals, each under case-sensitive and case-insensitive matching (negated lower/upper only case-sensitive)')
     rep.floor('C01.R3', 9, '7 letter escapes + octal + hex')
     rep.floor('C01.R4', 1, 'goal action')
     rep.floor('C01.R5', 2, 'qsort in the fullccl production + cclcmp')
